@@ -405,6 +405,17 @@ v('c04-split-update-skipped', ['C04'], MINF, "        if j != 0 {\n            /
 v('c04-delta-char', ['C04'], MINF, "main.refine_block_with_fun(b, |x| delta(x, s.char), s.block)", "main.refine_block_with_fun(b, |x| delta(x, s.class), s.block)", 'C04.R6/refine_block_with_splitter')
 v('c04-pred-class', ['C04'], MINF, "p.refine_block(s.class, |x| main.block_id(delta(x, c)) == i)", "p.refine_block(s.class, |x| main.block_id(delta(x, c)) == j)", 'C04.R3')
 v('c04-count', ['C04'], PARF, "            if p(s[k]) {\n                if j < k {\n                    s.swap(k, j);\n                }\n                j += 1;", "            if p(s[k]) {\n                if j < k {\n                    s.swap(k, j);\n                    j += 1;\n                }", 'C04.R5/BasePartition::refine_block')
+v('c04-take-list-prefix', ['C04'], MINF, """        match self.list.get_mut(b as usize) {
+            Some(l) => std::mem::take(l),
+            None => SplitterList::default(),
+        }""", "        std::mem::take(&mut self.list[b as usize])", 'C04.R7/take_list/total')
+v('c04-add-swap-front', ['C04'], MINF, "                list.swap(self.num_active, i);", "                list.swap(0, i);", 'C04.R7/SplitterList::add')
+v('c04-add-count-always', ['C04'], MINF, "                list.swap(self.num_active, i);\n            }\n            self.num_active += 1;\n        }", "                list.swap(self.num_active, i);\n            }\n        }\n        self.num_active += 1;", 'C04.R7/SplitterList::add')
+v('c04-pick-active-off', ['C04'], MINF, "        self.num_active -= 1;\n        &list[self.num_active]", "        let k = self.num_active;\n        self.num_active -= 1;\n        &list[k % list.len()]", 'C04.R7/pick_active')
+v('c04-iter-flag', ['C04'], MINF, "            let active = i < self.list.num_active;", "            let active = i <= self.list.num_active;", 'C04.R7/SplitterListIterator::next')
+v('c04-add-splitter-block', ['C04'], MINF, "        self.list[b].add(SplitterItem::from_splitter(s))", "        let k = self.list.len() - 1;\n        self.list[k].add(SplitterItem::from_splitter(s))", 'C04.R7/add_splitter')
+v('c04-pick-splitter-active', ['C04'], MINF, "                class: pair.class,\n                active: false,\n            })\n        } else {\n            None", "                class: pair.char,\n                active: false,\n            })\n        } else {\n            None", 'C04.R7/pick_splitter')
+v('c04-has-active-skip', ['C04'], MINF, "                if list.has_active_items() {\n                    self.active_block = b;", "                if list.has_active_items() && b > 1 {\n                    self.active_block = b;", 'C04.R7/has_active_splitter')
 
 # ---- C11.R5
 v('c11-try-from-iter-lt', ['C11'], CS, "                if c.start <= prev.end {\n                    return Err(Error::NonDisjointCharSets);", "                if c.start < prev.end {\n                    return Err(Error::NonDisjointCharSets);", 'C11.R5')
